@@ -225,7 +225,7 @@ class Snapshots(XMLEntry):
     @classmethod
     def _from_xml(cls, element: Element) -> Snapshots:
         top_guid = element.find("TopGUID")
-        if top_guid:
+        if top_guid is not None:
             top_guid = UUID(top_guid.text)
         shots = list(map(Shot.from_xml, element.iterfind("Shot")))
 
